@@ -32,3 +32,14 @@ def api_ob(tdir, api, nn, mt=0, avx=0, rsz=2, asz=2, asl=None, nrows=2, ncols=2,
     return Ob(name, "api.c", "h_api", d, LIBS, unwind=600, flags=list(flags), inc=[tdir], family=APIN[api] + (" ntt120" if mt else ""), timeout=timeout, mem_gb=12,
               desc="public entry point on exactly-sized heap buffers (bytes_of_*, *_tmp_bytes from the real functions), all data symbolic: every read/write "
                    "inside the declared extents, sources / module / tables bit-identical afterwards, rows beyond the input size zero")
+
+
+def api_writeset_ob(tdir, api, nn, mt=0, avx=0, rsz=2, asz=2, nrows=2, ncols=2, tag="writeset/"):
+    """C12: the entry point assigns no shared static-lifetime object (SSA write set of the exported, unsliced VC; vf.alg.uf:check_shared_writes)"""
+    o = api_ob(tdir, api, nn, mt, avx, rsz, asz, None, nrows, ncols, 0, tag=tag)
+    a = core.AlgOb(o.name, "api.c", "h_api", "vf.alg.uf:check_shared_writes", params={"marker": "vf_marker", "statics_only": True, "nin": 600},
+                   defs=o.defs, libs=LIBS, unwind=600, inc=[tdir], family=o.family + " (write set)", timeout=600, mem_gb=12,
+                   dialect="--z3" if mt else "--smt2",
+                   desc="after the module is built, the call assigns no static-lifetime object other than thread-local ones: no lazily initialised shared "
+                        "table, no static scratch buffer (CBMC's SSA assignments of the whole call, unsliced)")
+    return a
